@@ -567,3 +567,77 @@ Theorem C15_source_facts :
   c15_fact_wrap_delivered && c15_fact_tagschema_clean && c15_fact_probe_contentlength &&
   c15_fact_oci_last && c15_fact_oci_sort = true.
 Proof. exact (eq_refl true). Qed.
+
+(* a registry that writes its link query by escaping is read back exactly *)
+Theorem C15_parse_enc_pairs :
+  forall l, Forall kv_ok l -> parse_query_lenient (enc_pairs l) = l.
+Proof. exact parse_enc_pairs. Qed.
+Print Assumptions C15_parse_enc_pairs.
+
+(* one step end to end: a link in one of the four forms to (P, escaped q') makes the string
+   level send a request to P whose raw query represents the model's request for (P, q') *)
+Theorem C15_step_simulation :
+  forall c base P segs q' t trailer hc ht,
+    let Q := enc_pairs (shown q') in
+    link_form base P Q t -> query_ok q' ->
+    clean_path P segs -> forallb path_char P = true ->
+    s_host base = hc :: ht -> forallb host_char (s_host base) = true -> host_ok (s_host base) = true ->
+    link_ok t -> contains c_gt t = false ->
+    exists raw, next_request c base (c_lt :: t ++ c_gt :: trailer) = NNext P raw /\
+                repr raw (u_query (mk_request c (mkUrl P q') [])).
+Proof. exact step_simulation. Qed.
+Print Assumptions C15_step_simulation.
+
+(* all histories: the page loop on strings (raw queries, setQueryParams, net/url as modelled)
+   refines the page loop on association lists -- same pages, same outcome, pairwise
+   indistinguishable requests -- for any server answering indistinguishable requests alike and
+   any links that net/url resolves like the abstract resolver *)
+Theorem C15_string_loop_refines :
+  forall (sch host : str) (serve_s : nat -> sreq -> response) (serve : nat -> url -> response)
+         (resolve : url -> str -> option url) (cb_fail : nat -> bool) (c : cfg),
+    (forall i rs rq, same_request rs rq -> serve_s i rs = serve i rq) ->
+    (forall i rs rq t, same_request rs rq -> parse_link (rs_link (serve i rq)) = LTarget t ->
+       match resolve_ref (mkS sch host (sr_path rs) (sr_query rs)) t, resolve rq t with
+       | ROk u, Some u' => s_path u <> [] /\ s_path u = u_path u' /\ repr (s_query u) (u_query u')
+       | RErr, None => True
+       | _, _ => False
+       end) ->
+    forall fuel i k p raw q last,
+      repr raw q -> Forall byte_ok last ->
+      exists ts, loop_s sch host serve_s cb_fail c fuel i k p raw last = Some ts /\
+                 let t := loop serve resolve cb_fail c fuel i k (mkUrl p q) last in
+                 st_pages ts = t_pages t /\ st_out ts = t_out t /\
+                 Forall2 same_request (st_reqs ts) (t_reqs t).
+Proof. exact loop_s_refines. Qed.
+Print Assumptions C15_string_loop_refines.
+
+(* exactly once for the loop on strings *)
+Theorem C15_exactly_once_string_loop :
+  forall (sch host : str) (serve_s : nat -> sreq -> response)
+         (L : list item) (cap : nat) (ds : nat -> decision)
+         (render : nat -> url -> url -> str) (trailer : nat -> str)
+         (resolve : url -> str -> option url) (c : cfg) (cu : cursor) (npath : nat -> str -> str) (vis : item -> bool)
+         (path last0 : str) (fuel : nat),
+    cursor_ok cu ->
+    c_kind c <> KReferrers ->
+    NoDup (map fst L) -> (forall it, In it L -> fst it <> []) ->
+    (forall i base x, In x (map fst L) ->
+       contains c_gt (render i base (link_target ds cu npath i base x)) = false) ->
+    (forall i base x, In x (map fst L) ->
+       resolve base (render i base (link_target ds cu npath i base x)) = Some (link_target ds cu npath i base x)) ->
+    (forall i, (Z.of_N (d_doc_len (ds i)) <= eff_limit (c_limit c))%Z) ->
+    (length (after last0 L) < fuel)%nat ->
+    Forall byte_ok last0 ->
+    let serve := reg_serve (c_kind c) cu npath vis L cap ds render trailer in
+    (forall i rs rq, same_request rs rq -> serve_s i rs = serve i rq) ->
+    (forall i rs rq t, same_request rs rq -> parse_link (rs_link (serve i rq)) = LTarget t ->
+       match resolve_ref (mkS sch host (sr_path rs) (sr_query rs)) t, resolve rq t with
+       | ROk u, Some u' => s_path u <> [] /\ s_path u = u_path u' /\ repr (s_query u) (u_query u')
+       | RErr, None => True
+       | _, _ => False
+       end) ->
+    exists ts, loop_s sch host serve_s (fun _ => false) c fuel 0 0 path [] last0 = Some ts /\
+               st_out ts = Done /\ concat (st_pages ts) = filter vis (after last0 L) /\
+               (length (st_reqs ts) <= S (length (after last0 L)))%nat.
+Proof. exact string_loop_exactly_once. Qed.
+Print Assumptions C15_exactly_once_string_loop.
